@@ -3,7 +3,7 @@
    Bip32.py / BufferWriter.write_int / {Symbol,Nem}Facade.bip32_path / bip32_node_to_key_pair / nem KeyPair instantiated with the
    constants and operators regenerated from /repo (Gen/Bip32Ops.v) and with the Gallina HMAC-SHA512; the right-hand
    specifications are fixed text.  Outcomes are `result`: Ok v | Reject (ValueError) | Crash kind. *)
-From Symv Require Import Base.Bytes Base.PyOps Sym.Sha2 Sym.Hmac Sym.Bip32 Sym.Bip32Proofs.
+From Symv Require Import Base.Bytes Base.PyOps Sym.Sha2 Sym.Hmac Sym.Bip32 Sym.Bip32Proofs Sym.Bip32Proofs2.
 Open Scope Z_scope.
 
 (* ---- composition: deriving along p ++ q is deriving along p, then along q from the node reached (all nodes, all paths,
@@ -137,6 +137,52 @@ Theorem nem_private_key_property_is_reversed : forall kp, length (signing_secret
 Proof. exact Bip32Proofs.nem_private_key_property. Qed.
 Print Assumptions nem_private_key_property_is_reversed.
 
+(* ---- composition at full strength: ANY split of a path into consecutive segments (any number of them, empty ones included),
+        derived segment after segment, gives the node -- or the exception -- of the whole path; two splits of one path agree;
+        the step-by-step derivation is the split into singletons ---- *)
+Theorem derive_path_any_split : forall segs n,
+  derive_path_sha512 (concat segs) n = derive_segments hmac_sha512 segs (Ok n).
+Proof. exact (Bip32Proofs2.derive_path_any_split hmac_sha512). Qed.
+Print Assumptions derive_path_any_split.
+
+Theorem derive_path_two_splits_agree : forall segs1 segs2 n,
+  concat segs1 = concat segs2 -> derive_segments hmac_sha512 segs1 (Ok n) = derive_segments hmac_sha512 segs2 (Ok n).
+Proof. exact (Bip32Proofs2.derive_path_two_splits hmac_sha512). Qed.
+Print Assumptions derive_path_two_splits_agree.
+
+Theorem derive_path_stepwise : forall p n,
+  derive_path_sha512 p n = derive_segments hmac_sha512 (map (fun i => [i]) p) (Ok n).
+Proof. exact (Bip32Proofs2.derive_path_stepwise hmac_sha512). Qed.
+Print Assumptions derive_path_stepwise.
+
+(* ---- the facades end to end: the node of account i (< 2^31) is the SLIP-10 hardened chain 44 / coin type / i / 0 / 0 under the
+        root of the seed with the network's curve label ---- *)
+Theorem symbol_account_node : forall name account seed, 0 <= account < 2 ^ 31 ->
+  derive_path_sha512 (symbol_bip32_path name account) (from_seed_sha512 sym_curve seed) =
+  Ok (fold_left (slip10_child hmac_sha512)
+        [44; if list_eq_dec Z.eq_dec name (of_string "mainnet") then 4343 else 1; account; 0; 0]
+        (slip10_root hmac_sha512 (of_string "ed25519") seed)).
+Proof. exact (Bip32Proofs2.symbol_account_node hmac_sha512). Qed.
+Print Assumptions symbol_account_node.
+
+Theorem nem_account_node : forall name account seed, 0 <= account < 2 ^ 31 ->
+  derive_path_sha512 (nem_bip32_path name account) (from_seed_sha512 nem_curve seed) =
+  Ok (fold_left (slip10_child hmac_sha512)
+        [44; if list_eq_dec Z.eq_dec name (of_string "mainnet") then 43 else 1; account; 0; 0]
+        (slip10_root hmac_sha512 (of_string "ed25519-keccak") seed)).
+Proof. exact (Bip32Proofs2.nem_account_node hmac_sha512). Qed.
+Print Assumptions nem_account_node.
+
+Theorem account_paths_injective : forall name a b,
+  (symbol_bip32_path name a = symbol_bip32_path name b -> a = b) /\ (nem_bip32_path name a = nem_bip32_path name b -> a = b).
+Proof. exact (fun name a b => conj (Bip32Proofs2.symbol_path_injective name a b) (Bip32Proofs2.nem_path_injective name a b)). Qed.
+Print Assumptions account_paths_injective.
+
+Theorem hardened_index_bytes_injective : forall i j, 0 <= i < 2 ^ 31 -> 0 <= j < 2 ^ 31 ->
+  to_be 4 (2 ^ 31 + i) = to_be 4 (2 ^ 31 + j) -> i = j.
+Proof. exact Bip32Proofs2.hardened_index_bytes_injective. Qed.
+Print Assumptions hardened_index_bytes_injective.
+
 (* non-vacuity: SLIP-10 test vector 1 for ed25519 (seed 000102..0f, chain m/0H), and an out-of-range index *)
 Example slip10_vector_1 :
   let root := from_seed_sha512 default_curve (of_hex "000102030405060708090a0b0c0d0e0f") in
@@ -165,3 +211,12 @@ Example premises_nonvacuous :
   /\ nem_key_pair_private_key {| signing_secret := private_key root; public_key := [] |} = Ok (rev (private_key root)).
 Proof. vm_compute. repeat split; reflexivity. Qed.
 Print Assumptions premises_nonvacuous.
+
+(* non-vacuity of the split theorems: a three-way split with an empty segment, and two different splits of one path *)
+Example splits_nonvacuous :
+  let root := from_seed_sha512 default_curve (of_hex "000102030405060708090a0b0c0d0e0f") in
+  derive_segments hmac_sha512 [[44]; []; [1; 2]] (Ok root) = derive_path_sha512 [44; 1; 2] root
+  /\ concat [[44; 1]; [2]] = concat [[44]; [1; 2]]
+  /\ (exists m, derive_path_sha512 [44; 1; 2] root = Ok m).
+Proof. vm_compute. repeat split. eexists. reflexivity. Qed.
+Print Assumptions splits_nonvacuous.
